@@ -9,7 +9,7 @@ from dst.engines.e2_shapes import E2Shapes
 from dst.engines.e3_phases import E3Phases
 from dst.engines.e4_inputs import E4Inputs
 from dst.engines.e5_buzzer import E5Buzzer
-from dst.engines.e6_lcd import E6Text
+from dst.engines.e6_lcd import E6Anim, E6Text
 from dst.engines.e8_host import E8Actuators, E8Helpers
 from dst.engines.e9_pc import E9Determinism, E9Hostile, E9Project, E9Target
 
@@ -21,6 +21,7 @@ _E2_CLAMP = E2Clamp()
 _E3 = E3Phases()
 _E2_SHAPES = E2Shapes()
 _E6_TEXT = E6Text()
+_E6_ANIM = E6Anim()
 _E5 = E5Buzzer()
 _E4 = E4Inputs()
 _E1_PERSIST = E1Persist()
@@ -53,6 +54,7 @@ PLANS: Dict[str, List[dict]] = {
     "C15": [{"engine": _E4, "quick": 2000, "thorough": 30000, "quick_wall_s": 120, "thorough_wall_s": 1500}],
     "C16": [{"engine": _E5, "quick": 2000, "thorough": 30000, "quick_wall_s": 120, "thorough_wall_s": 1500}],
     "C17": [{"engine": _E6_TEXT, "quick": 2000, "thorough": 30000, "quick_wall_s": 120, "thorough_wall_s": 1500}],
+    "C18": [{"engine": _E6_ANIM, "quick": 1500, "thorough": 20000, "quick_wall_s": 120, "thorough_wall_s": 1500}],
     "C19": [{"engine": _E8_ACT, "quick": 60000, "thorough": 2000000, "quick_wall_s": 90, "thorough_wall_s": 900}],
     "C20": [{"engine": _E8_HELP, "quick": 40000, "thorough": 1000000, "quick_wall_s": 90, "thorough_wall_s": 900}],
 }
